@@ -21,7 +21,30 @@ type concProgram struct {
 // forward-only work on shared tensors (any of them, tracked or not)
 func (g *Gen) concForward(shared []int, fc int) {
 	x := shared[g.intn(len(shared))]
-	switch g.intn(9) {
+	switch g.intn(10) {
+	case 8:
+		// error paths interleaved with ordinary work: a product whose SECOND operand cannot be broadcast (and one
+		// whose first cannot), then implicitly broadcasting operations on private and shared tensors
+		a := g.leafDistinct([]int{3, 2, 4}, false, -2, 2)
+		b := g.leafDistinct([]int{2, 4, 5}, false, -2, 2)
+		g.do(Cmd{Op: OpMatMul, T: a, U: T(b)})
+		if g.chance(0.3) {
+			g.do(Cmd{Op: OpMatMul, T: b, U: T(a)})
+		}
+		col := g.leafDistinct([]int{3, 1}, false, -2, 2)
+		row := g.leafDistinct([]int{1, 4}, false, -2, 2)
+		s1, _ := g.do(Cmd{Op: OpBin, K: 8, T: col, U: T(row)})
+		if g.isT(s1) {
+			s2, _ := g.do(Cmd{Op: OpBin, K: 10, T: s1, U: T(row)})
+			if g.isT(s2) {
+				pr := g.leafDistinct([]int{4, 2}, false, -2, 2)
+				g.do(Cmd{Op: OpMatMul, T: s2, U: T(pr)})
+			}
+		}
+		if len(g.shapeOf(x)) > 0 {
+			sc := g.leafDistinct([]int{1}, false, -2, 2)
+			g.do(Cmd{Op: OpBin, K: 8 + g.intn(3), T: x, U: T(sc)})
+		}
 	case 0:
 		g.do(Cmd{Op: OpMath, K: g.pick(2, 3, 7, 0), T: x})
 	case 1:
